@@ -22,7 +22,9 @@ impl UserDefinedTransformer {
         for (pattern, template) in &self.rules {
             let mut substitutions = HashMap::new();
             if pattern.match_datum(&datum, 0, &self.literals, &mut substitutions)? {
-                let mut substituded = template.substitude(&substitutions)?;
+                // data built from the template stand where the macro use stood, not where the
+                // template was written; the parts taken from the use keep their own locations
+                let mut substituded = template.substitude(&substitutions, datum.location)?;
                 if substituded.len() != 1 {
                     return located_error!(
                         SyntaxError::TransformOutMultipleDatum,
@@ -308,8 +310,9 @@ impl SyntaxTemplate {
     pub fn substitude(
         &self,
         substitutions: &HashMap<String, (Datum, Vec<Datum>)>,
+        use_location: Option<[u32; 2]>,
     ) -> Result<Vec<Datum>, SchemeError> {
-        let location = self.location;
+        let location = use_location.or(self.location);
         match &self.data {
             SyntaxTemplateBody::Pair(list) => {
                 let mut substituted_pair_items = vec![];
@@ -319,10 +322,12 @@ impl SyntaxTemplate {
                             SyntaxTemplate::substitute_template_element(
                                 &template_element,
                                 substitutions,
+                                use_location,
                             )?,
                         ),
                         PairIterItem::Improper(SyntaxTemplateElement(last, false)) => {
-                            substituted_pair_items.extend(last.substitude(substitutions)?)
+                            substituted_pair_items
+                                .extend(last.substitude(substitutions, use_location)?)
                         }
                         _ => {
                             return error!(SyntaxError::UnexpectedDatum(
@@ -343,6 +348,7 @@ impl SyntaxTemplate {
                     substituted_vec.extend(SyntaxTemplate::substitute_template_element(
                         sub_template_element,
                         substitutions,
+                        use_location,
                     )?)
                 }
                 Ok(vec![DatumBody::Vector(substituted_vec).locate(location)])
@@ -364,7 +370,9 @@ impl SyntaxTemplate {
         template: &SyntaxTemplate,
         substitutions: &HashMap<String, (Datum, Vec<Datum>)>,
         item_index: usize,
+        use_location: Option<[u32; 2]>,
     ) -> Result<Option<Datum>, SchemeError> {
+        let built_location = use_location.or(template.location);
         Ok(match &template.data {
             SyntaxTemplateBody::Pair(list) => {
                 let mut new_list_elements = Vec::new();
@@ -373,6 +381,7 @@ impl SyntaxTemplate {
                         &pair_item.get_inside().0,
                         substitutions,
                         item_index,
+                        use_location,
                     )? {
                         Some(sub_datum) => {
                             new_list_elements.push(pair_item.replace_inside(sub_datum))
@@ -384,18 +393,23 @@ impl SyntaxTemplate {
                     DatumBody::Pair(Box::new(GenericPair::from_pair_iter(
                         new_list_elements.into_iter(),
                     )?))
-                    .locate(template.location),
+                    .locate(built_location),
                 )
             }
             SyntaxTemplateBody::Vector(vec) => {
                 let mut new_vec = Vec::new();
                 for pair_item in vec.iter() {
-                    match Self::substitude_ellipsis_item(&pair_item.0, substitutions, item_index)? {
+                    match Self::substitude_ellipsis_item(
+                        &pair_item.0,
+                        substitutions,
+                        item_index,
+                        use_location,
+                    )? {
                         Some(sub_datum) => new_vec.push(sub_datum),
                         None => return Ok(None),
                     }
                 }
-                Some(DatumBody::Vector(new_vec).locate(template.location))
+                Some(DatumBody::Vector(new_vec).locate(built_location))
             }
             SyntaxTemplateBody::Identifier(var) => match substitutions.get(var) {
                 Some((_, vec)) => {
@@ -405,10 +419,10 @@ impl SyntaxTemplate {
                         vec.get(item_index).cloned()
                     }
                 }
-                None => Some(DatumBody::Symbol(var.clone()).locate(template.location)),
+                None => Some(DatumBody::Symbol(var.clone()).locate(built_location)),
             },
             SyntaxTemplateBody::Primitive(p) => {
-                Some(DatumBody::Primitive(p.clone()).locate(template.location))
+                Some(DatumBody::Primitive(p.clone()).locate(built_location))
             }
             SyntaxTemplateBody::Ellipsis => {
                 return located_error!(
@@ -422,21 +436,27 @@ impl SyntaxTemplate {
     fn substitute_template_element(
         template_element: &SyntaxTemplateElement,
         substitutions: &HashMap<String, (Datum, Vec<Datum>)>,
+        use_location: Option<[u32; 2]>,
     ) -> Result<Vec<Datum>, SchemeError> {
         match template_element {
             SyntaxTemplateElement(sub_template, true) => {
-                let mut result = sub_template.substitude(substitutions)?;
+                let mut result = sub_template.substitude(substitutions, use_location)?;
                 let mut suffix_item_index = 0;
-                while let Some(item) =
-                    Self::substitude_ellipsis_item(sub_template, substitutions, suffix_item_index)?
-                {
+                while let Some(item) = Self::substitude_ellipsis_item(
+                    sub_template,
+                    substitutions,
+                    suffix_item_index,
+                    use_location,
+                )? {
                     suffix_item_index += 1;
                     result.push(item)
                 }
                 Ok(result)
             }
 
-            SyntaxTemplateElement(sub_template, false) => sub_template.substitude(substitutions),
+            SyntaxTemplateElement(sub_template, false) => {
+                sub_template.substitude(substitutions, use_location)
+            }
         }
     }
 }
